@@ -63,6 +63,12 @@ REQS = {
     'createStudyT': ('CreateStudy', {'op': 'createStudy', 'display': 't', 'state': 'ACTIVE'}),
     'mdMissing': ('UpdateMetadata', {'op': 'updateMetadata', 'us': [{'t': None, 'kv': ['', 'k', 'm']}, {'t': 99, 'kv': ['', 'k', 'm']}]}),
     'suggestPool': ('SuggestTrials', {'op': 'suggest', 'client': 'w6', 'count': 1, 'alg': S(1, 500)}),
+    # the study named by a string that is not its canonical name ('owners/o/studies/s/'): refused today; if a name
+    # parser ever accepts it, the servicer's per-study locks (keyed by the request string) and the datastore
+    # (keyed by the parsed name) disagree about which study it is
+    'mdStudyAlias': ('UpdateMetadata', {'op': 'updateMetadata', 'sid': 's/', 'us': [{'t': None, 'kv': ['', 'k', 'a']}]}),
+    'createTrialAlias': ('CreateTrial', {'op': 'createTrial', 'sid': 's/', 'trial': {'state': 'REQUESTED', 'params': 52, 'meas': [], 'final': None, 'md': []}}),
+    'setInactiveAlias': ('SetStudyState', {'op': 'setStudyState', 'sid': 's/', 'state': 'INACTIVE'}),
     'earlyStop1': ('CheckTrialEarlyStoppingState', {'op': 'checkEarlyStop', 'id': 1, 'es': {'kind': 'ok', 'decisions': [[1, True]], 'delta': []}}),
 }
 
@@ -259,7 +265,7 @@ def local_servicer_stage(c):
 
 
 def pairs_for(tier, rng):
-  names = list(REQS)
+  names = [n for n in REQS if not n.endswith('Alias')]       # alias-name templates: directed pairs only (run)
   allpairs = [(a, b) for i, a in enumerate(names) for b in names[i:]]
   tasks = []
   for pname in PREFIXES:
@@ -305,8 +311,11 @@ def run(c):
                   ('suggestOwn', 'mdBoth'), ('suggestNew', 'createTrial2'), ('suggestNew', 'setInactive'), ('suggestNew', 'delete1'),
                   ('suggestNew', 'mdMissing'), ('suggestPool', 'complete2'), ('suggestNew', 'mdStudyK0'), ('suggestPool', 'mdTrial3')]
   if c.tier == 'thorough':
-    hosted_pairs += [(a, b) for a in ('suggestNew', 'suggestOwn', 'suggestPool', 'suggestMd') for b in REQS if (a, b) not in hosted_pairs and b not in ('earlyStop1',)]
+    hosted_pairs += [(a, b) for a in ('suggestNew', 'suggestOwn', 'suggestPool', 'suggestMd') for b in REQS if (a, b) not in hosted_pairs and b not in ('earlyStop1',) and not b.endswith('Alias')]
   jobs += [('hosted:ram', 'A', a, b, limit) for a, b in hosted_pairs]
+  alias_pairs = [('setInactiveAlias', 'mdStudy'), ('createTrialAlias', 'createTrial'), ('mdStudyAlias', 'setInactive'),
+                 ('mdStudyAlias', 'mdStudyK0'), ('createTrialAlias', 'suggestNew'), ('setInactiveAlias', 'complete1')]
+  jobs += [(be, 'A', a, b, limit) for be in backends for a, b in alias_pairs]
   if c.tier == 'thorough':
     jobs += [('hosted:sqlmem', 'A', a, b, limit) for a, b in hosted_pairs[:10]]
   ctx = multiprocessing.get_context('fork')
